@@ -53,7 +53,7 @@ Print Assumptions C20_overlay_path_default.
 Theorem C20_merge_keys : forall a b,
   NoDup (keys b) ->
   keys (merge a b) = keys a ++ filter (fun k => negb (mem k a)) (keys b).
-Proof. intros a b. exact (merge_keys b a). Qed.
+Proof. exact merge_keys_law. Qed.
 Print Assumptions C20_merge_keys.
 
 (* Skeleton lemma: a table merged with its own skeleton of empty tables is unchanged. *)
